@@ -32,6 +32,8 @@ pub struct DeserializationContext<'a> {
 
 impl<'a> DeserializationContext<'a> {
     pub fn new(input: &'a [u8]) -> Self {
+        #[cfg(desert_verif)]
+        crate::verif::point("DeserializationContext::new");
         let whole_input = ResolvedInputRegion {
             start: 0,
             pos: 0,
